@@ -3,7 +3,7 @@
 # fresh scratch worktree of /repo (suite passes with it; demo fails with it and passes without),
 # then store it under /verif/seeded/<name>/ . The scratch worktree is removed afterwards.
 set -u
-SRC=$1; NAME=$2; PROP=$3
+SRC=$1; NAME=$2; PROP=$3; FEAT=${4:-}
 WT=/tmp/confirm-$NAME
 export CARGO_NET_OFFLINE=true CARGO_TARGET_DIR=/tmp/confirm-target
 rm -rf $WT; git -C /repo worktree prune
@@ -19,15 +19,19 @@ echo "suite with change: $SUITE"
 echo "$SUITE" | grep -q "131 tests run: 131 passed" || { echo "CONFIRM-FAIL: suite does not pass with the change"; exit 1; }
 DOC=$(cargo test --offline --doc 2>&1 | grep "test result" | tail -1)
 echo "doctests with change: $DOC"
+if [ -n "$FEAT" ]; then
+  SF=$(cargo test --offline $FEAT --lib 2>&1 | grep "test result" | tail -1); echo "lib tests with $FEAT: $SF"
+  echo "$SF" | grep -q " 0 failed" || { echo "CONFIRM-FAIL: suite with $FEAT fails"; exit 1; }
+fi
 echo "$DOC" | grep -q " 0 failed" || { echo "CONFIRM-FAIL: doc tests fail with the change"; exit 1; }
 cp $SRC/_seed/demo.rs tests/seed_demo.rs
-WITH=$(cargo test --offline --test seed_demo 2>&1 | grep -E "^test result|error(\[|:)|panicked|SIG|signal" | head -3)
+WITH=$(cargo test --offline $FEAT --test seed_demo 2>&1 | grep -E "^test result|error(\[|:)|panicked|SIG|signal" | head -3)
 echo "demo with change: $WITH"
 if echo "$WITH" | grep -q "test result: ok"; then echo "CONFIRM-FAIL: demo passes with the change"; exit 1; fi
-WITHR=$(cargo test --offline --release --test seed_demo 2>&1 | grep -E "^test result|error(\[|:)|SIG|signal" | head -2)
+WITHR=$(cargo test --offline $FEAT --release --test seed_demo 2>&1 | grep -E "^test result|error(\[|:)|SIG|signal" | head -2)
 echo "demo with change (release): $WITHR"
 git apply -R $SRC/_seed/patch.diff
-WITHOUT=$(cargo test --offline --test seed_demo 2>&1 | grep -E "^test result" | head -3)
+WITHOUT=$(cargo test --offline $FEAT --test seed_demo 2>&1 | grep -E "^test result" | head -3)
 echo "demo without change: $WITHOUT"
 echo "$WITHOUT" | grep -q "test result: ok" || { echo "CONFIRM-FAIL: demo fails without the change"; exit 1; }
 mkdir -p /verif/seeded/$NAME
